@@ -1570,7 +1570,34 @@ TRIPLE = {True: ("N9", "N7", "N3"), False: ("N1", "C4", "O2")}
 
 def check_base_normal(chk, fi: FuncInfo) -> None:
     repo = chk.repo
-    paths = SX.Executor(rewrite=idioms).run(fi.node.body)
+
+    class _ClassConst(ast.NodeTransformer):
+        """Residue3D.<table> / self.<table> with a class-level tuple or list of names -> the literal"""
+
+        def visit_Attribute(self, n: ast.Attribute):
+            self.generic_visit(n)
+            if isinstance(n.value, ast.Name) and n.value.id in ("Residue3D", "self", "cls") and isinstance(n.ctx, ast.Load):
+                try:
+                    e = repo.class_attr_expr(fi.module.name, "Residue3D", n.attr)
+                except Exception:
+                    return n
+                if isinstance(e, (ast.Tuple, ast.List)) and all(isinstance(x, ast.Constant) for x in e.elts):
+                    return copy.deepcopy(e)
+            return n
+
+    def rw(e: ast.expr) -> ast.expr:
+        return SX._simplify(_ClassConst().visit(idioms(e)))
+
+    paths = SX.Executor(rewrite=rw).run(fi.node.body)
+    def unread(node: ast.AST) -> bool:
+        return any(SX.is_elem(x) is not None or SX.is_opaque(x) or isinstance(x, (ast.ListComp, ast.GeneratorExp)) for x in ast.walk(node))
+
+    for p in paths:
+        # decisions about the three reference atoms must be readable; the value matters only where all three were found
+        # (where one is missing any value other than None is already the finding)
+        for k, v, node in p.conds:
+            if "find_atom" in k and unread(node):
+                raise NotReadable(f"base_normal_vector: `{k[:70]}` is not resolved to atoms fetched by constant names")
     n_eval = 0
     problems: Dict[str, str] = {}
     for p in paths:
@@ -1593,6 +1620,8 @@ def check_base_normal(chk, fi: FuncInfo) -> None:
                 why = [(k, v) for k, v, _ in p.conds if "one_letter_name" not in k][-1:] or "unconditionally"
                 problems.setdefault(f"{L}: no normal", f"returns None although {o}, {t1}, {t2} were not found missing (decision: {why})")
                 continue
+            if unread(ret):
+                raise NotReadable(f"base_normal_vector: `{norm(ret)[:70]}` is not resolved to atoms fetched by constant names")
             cross = f"numpy.cross(self.find_atom('{t1}').coordinates - self.find_atom('{o}').coordinates, self.find_atom('{t2}').coordinates - self.find_atom('{o}').coordinates)"
             want = f"{cross} / numpy.linalg.norm({cross})"
             if norm(ret) != want:
